@@ -117,8 +117,8 @@ PROPS = {
         'assumptions': ['the panic value "cannot insert element, cuckoofilter is full" is the failure signal'],
     },
     'C18': {
-        'lean_modules': ['C18', 'C11'],
-        'required_theorems': ['C18_truncated_bloom', 'C18_truncated_cms', 'C18_truncated_hll', 'C18_truncated_cuckoo', 'C18_truncated_topk'],
+        'lean_modules': ['C18', 'C11', 'C18Table'],
+        'required_theorems': ['C18_truncated_bloom', 'C18_truncated_cms', 'C18_truncated_hll', 'C18_truncated_cuckoo', 'C18_truncated_topk', 'C18_errors_propagated', 'C18_decoder_table_covers'],
         'suites': ['persist'],
         'level': 'proof',
         'explanation': 'Lean: a decoder written in the read-n-bytes monad that consumes a whole image rejects every strict prefix (generic theorem), instantiated for the five formats via the C11 round trip. '
@@ -183,6 +183,22 @@ PROPS = {
                        'Suite `isolation` runs 2-8 structures of random kinds in one database: every structure is compared step by step with its solo run, and the keys each operation changes must lie in the model key set of that structure and in no other structure.',
         'assumptions': ['GenerateRandomString(16) returns pairwise distinct names of 16 ASCII letters (checked at run time by the key-set comparison, not proved)',
                         'Redis executes each command / script atomically'],
+    },
+
+    'C07': {
+        'lean_modules': ['C07', 'C07Lock'],
+        'required_theorems': ['C07_serializable', 'C07_program_order_preserved', 'C07_no_lost_update', 'C07_order_independent_bloom',
+                              'C07_order_independent_cms', 'C07_order_independent_hll', 'C07_lock_discipline', 'C07_lock_table_covers'],
+        'suites': ['conc'],
+        'race_suites': ['conc'],
+        'level': 'proof',
+        'explanation': 'Lean: (2) every schedule of calls of the form acquire;body;release that respects mutual exclusion has the final state and per-call results of the sequential execution in lock-acquisition order, which preserves each goroutine\'s program order and applies every call exactly once; '
+                       '(3) Bloom/Count-Min/HyperLogLog updates commute, so that state equals the one of any order. Premise (1) - every access to mutable state of the five in-memory types lies inside a critical section of the instance\'s mutex, writes under the write lock - '
+                       'is a table REGENERATED from /repo by the go/ast extractor on every run and re-decided by lake build (C07_lock_discipline, C07_lock_table_covers). '
+                       'When it breaks, the search is suite `conc` built with the race detector: 2..16 goroutines on one instance, final state compared with the sequential application.',
+        'assumptions': ['sync.Mutex / RWMutex semantics and the Go memory model (a data-race-free program is sequentially consistent)',
+                        'Import, ReadFrom, Equals and GetBitSet are outside the call classes the property lists (update, query, length, merge, export/serialize) and are exempt in the table',
+                        'the extractor is syntactic: it answers "not guarded" for shapes it does not understand'],
     },
 }
 
